@@ -43,6 +43,8 @@ def tasks(tier, seed, selftest=False):
             add("D3", p, (25 if q else 1200), strat)
     for strat in (0, 1):
         add("P:SW2+SW2", (), 30 if q else 900, strat)
+        # minimal driver sets of different sizes that share a variable ({a,b} and {a,c,d} both force the all-ones motif)
+        add("DRV4", (), 20 if q else 900, strat)
     for strat in (0, 1):
         add("S1C2", (), 15 if q else 600, strat, free=True)      # the source presented as a free input (no update function)
     if q:
